@@ -125,6 +125,7 @@ static void prop_c01(Tape &t, Result &r) {
   gp::GenCfg cfg;
   cfg.user_macros = t.chance(1, 2);
   cfg.force_call_in_loop = t.chance(1, 6);
+  cfg.arith_heavy = cfg.user_macros && t.chance(1, 3);
   Case c;
   decode_case(t, cfg, false, c);
   r.sample = case_json(c);
